@@ -1,11 +1,874 @@
-//! (stub) binding for this area — see DESIGN.md
-use crate::util::Args;
-use anyhow::Result;
+//! Binding of spec/Presentation.tla (C19: extraction is invariant under how the input is presented).
+//!
+//! `replay-present`  REPLAY direction: every line is one terminal state of MC_Presentation (records, options and
+//!                   the presented files byte by byte as the MODEL computed them).  The model's bytes are written
+//!                   (each gzip member compressed on its own by flate2 and concatenated), the real reader
+//!                   (MultiFileIterator, per file, as the CLI drives it) and the real create + Decompressor are run
+//!                   and compared with the model's records; archives of one SameBytesClass must have one sha256.
+//!                   The harness' own presenter (used for the big inputs below) is compared with the model's bytes.
+//! `trace-present`   TRACE direction: one generated sample set (crate::gen), many presentations of it (base ones,
+//!                   TLC-generated option combinations, seeded random ones: widths up to 100000, many members, cuts
+//!                   inside headers / after '>' / inside lines / between CR and LF / empty members / bgzip blocks),
+//!                   real create (library call sequence and, for a subset, the real `ragc` binary), real listing and
+//!                   extraction; everything is logged as events for spec/Trace_Presentation.tla.
+//! This file only presents, drives and projects (codes -> digest); no verdict on the property is made here
+//! except the REPLAY comparison "model record list = what the real code returned".
+use crate::archive::{create_like_cli, CreateOpts};
+use crate::gen;
+use crate::util::{self, Args};
+use anyhow::{anyhow, bail, Context, Result};
+use flate2::{write::GzEncoder, Compression};
+use ragc_core::contig_iterator::ContigIterator;
+use ragc_core::{Decompressor, DecompressorConfig, MultiFileIterator};
+use rand::rngs::StdRng;
+use rand::Rng;
+use rayon::prelude::*;
+use serde_json::{json, Value};
+use std::collections::BTreeMap;
+use std::io::{BufRead, Write};
+use std::path::{Path, PathBuf};
+use std::sync::atomic::{AtomicUsize, Ordering};
+use std::sync::Mutex;
 
-/// Returns None when `cmd` is not one of this module's sub-commands.
 pub fn dispatch(cmd: &str, a: &Args) -> Option<Result<()>> {
-    let _ = a;
     match cmd {
+        "replay-present" => Some(replay(a)),
+        "trace-present" => Some(trace(a)),
         _ => None,
     }
+}
+
+// ------------------------------------------------------------------------------------------------
+// abstract records and options
+// ------------------------------------------------------------------------------------------------
+#[derive(Clone, PartialEq, Debug)]
+pub struct Rec {
+    pub sample: Vec<u8>,
+    pub header: Vec<u8>,
+    pub seq: Vec<u8>,
+}
+
+#[derive(Clone, Debug, PartialEq)]
+enum CaseMode {
+    Upper,
+    Lower,
+    MixedPhase(u8), // position i (1-based) is lower iff (i + phase) is even  (the model's "mixed")
+    MixedRandom(u64),
+}
+
+#[derive(Clone, Debug)]
+enum Cuts {
+    Offsets(Vec<usize>),                 // the same offsets in every file, clamped (the model's `cuts`)
+    Random { seed: u64, n: usize },      // per file: n cuts at random places of random kinds
+    Bgzf { block: usize },               // bgzip style: fixed-size blocks + an empty last member
+}
+
+#[derive(Clone, Debug)]
+struct Opt {
+    single: bool,
+    fname_sample: bool,
+    stemext: Vec<u8>,
+    width: usize,
+    crlf: bool,
+    case: CaseMode,
+    finalnl: bool,
+    gz: bool,
+    cuts: Cuts,
+    subdirs: bool, // files in differently named sub-directories (irrelevant to the naming rule)
+}
+
+struct PFile {
+    name: Vec<u8>,
+    gz: bool,
+    members: Vec<Vec<u8>>,
+}
+
+fn bytes_of(v: &Value) -> Vec<u8> {
+    v.as_array().map(|a| a.iter().map(|x| x.as_u64().unwrap_or(0) as u8).collect()).unwrap_or_default()
+}
+fn jb(b: &[u8]) -> Value {
+    Value::Array(b.iter().map(|&x| json!(x)).collect())
+}
+fn recs_of(v: &Value) -> Vec<Rec> {
+    v.as_array()
+        .map(|a| a.iter().map(|r| Rec { sample: bytes_of(&r["sample"]), header: bytes_of(&r["header"]), seq: bytes_of(&r["seq"]) }).collect())
+        .unwrap_or_default()
+}
+
+fn opt_of(v: &Value) -> Result<Opt> {
+    let case = match (v["case"].as_str().unwrap_or("upper"), v["phase"].as_u64().unwrap_or(0)) {
+        ("upper", _) => CaseMode::Upper,
+        ("lower", _) => CaseMode::Lower,
+        ("mixed", p) => CaseMode::MixedPhase(p as u8),
+        (o, _) => bail!("unknown case {}", o),
+    };
+    Ok(Opt {
+        single: v["layout"].as_str() == Some("single"),
+        fname_sample: v["fname"].as_str() == Some("sample"),
+        stemext: bytes_of(&v["stemext"]),
+        width: v["width"].as_u64().unwrap_or(0) as usize,
+        crlf: v["crlf"].as_bool().unwrap_or(false),
+        case,
+        finalnl: v["finalnl"].as_bool().unwrap_or(true),
+        gz: v["container"].as_str() == Some("gz"),
+        cuts: Cuts::Offsets(v["cuts"].as_array().map(|a| a.iter().map(|x| x.as_u64().unwrap_or(0) as usize).collect()).unwrap_or_default()),
+        subdirs: false,
+    })
+}
+
+fn opt_json(o: &Opt) -> Value {
+    json!({
+        "layout": if o.single { "single" } else { "per_sample" },
+        "fname": if o.fname_sample { "sample" } else { "other" },
+        "stemext": jb(&o.stemext),
+        "width": o.width, "crlf": o.crlf,
+        "case": match o.case { CaseMode::Upper => "upper", CaseMode::Lower => "lower", _ => "mixed" },
+        "finalnl": o.finalnl,
+        "container": if o.gz { "gz" } else { "plain" },
+    })
+}
+
+// ------------------------------------------------------------------------------------------------
+// the presenter: records -> groups -> lines -> bytes -> container   (spec/Presentation.tla `Present`)
+// ------------------------------------------------------------------------------------------------
+fn groups(recs: &[Rec]) -> Vec<Vec<Rec>> {
+    let mut gs: Vec<Vec<Rec>> = vec![];
+    for r in recs {
+        match gs.last_mut() {
+            Some(g) if g[0].sample == r.sample => g.push(r.clone()),
+            _ => gs.push(vec![r.clone()]),
+        }
+    }
+    gs
+}
+
+fn file_text(g: &[Rec], o: &Opt, file_idx: usize) -> Vec<u8> {
+    let eol: &[u8] = if o.crlf { b"\r\n" } else { b"\n" };
+    let mut lines: Vec<Vec<u8>> = vec![];
+    let mut rng = match o.case {
+        CaseMode::MixedRandom(s) => Some(util::rng(s ^ (file_idx as u64) << 20)),
+        _ => None,
+    };
+    for r in g {
+        let mut h = vec![b'>'];
+        h.extend_from_slice(&r.header);
+        lines.push(h);
+        let chars: Vec<u8> = r
+            .seq
+            .iter()
+            .enumerate()
+            .map(|(i, &c)| {
+                let u = gen::CODE2CHAR[c as usize];
+                match &o.case {
+                    CaseMode::Upper => u,
+                    CaseMode::Lower => u.to_ascii_lowercase(),
+                    CaseMode::MixedPhase(p) => if (i + 1 + *p as usize) % 2 == 0 { u.to_ascii_lowercase() } else { u },
+                    CaseMode::MixedRandom(_) => if rng.as_mut().unwrap().gen_bool(0.5) { u.to_ascii_lowercase() } else { u },
+                }
+            })
+            .collect();
+        if o.width == 0 || chars.len() <= o.width {
+            lines.push(chars);
+        } else {
+            for ch in chars.chunks(o.width) {
+                lines.push(ch.to_vec());
+            }
+        }
+    }
+    let mut out = vec![];
+    let n = lines.len();
+    for (i, l) in lines.into_iter().enumerate() {
+        out.extend_from_slice(&l);
+        if i + 1 < n || o.finalnl {
+            out.extend_from_slice(eol);
+        }
+    }
+    out
+}
+
+/// kind of the boundary before byte c (0-based offset) of text t  (= MC_Presentation!CutKind)
+fn cut_kind(t: &[u8], c: usize) -> &'static str {
+    if c == 0 {
+        return "start";
+    }
+    if c >= t.len() {
+        return "end";
+    }
+    // b = number of bytes up to and including the last LF before offset c
+    let b = t[..c].iter().rposition(|&x| x == b'\n').map(|p| p + 1).unwrap_or(0);
+    if b == c {
+        return "line_start";
+    }
+    let at = t[c];
+    if t[b] == b'>' {
+        if c == b + 1 { "after_gt" } else if at == b'\n' || at == b'\r' { "header_end" } else { "in_header" }
+    } else if at == b'\n' && t[c - 1] == b'\r' {
+        "cr_lf"
+    } else if at == b'\n' || at == b'\r' {
+        "line_end"
+    } else {
+        "in_seq"
+    }
+}
+
+const KINDS: [&str; 9] = ["start", "end", "line_start", "after_gt", "header_end", "in_header", "cr_lf", "line_end", "in_seq"];
+
+fn random_cuts(t: &[u8], r: &mut StdRng, n: usize) -> Vec<usize> {
+    // positions of line starts
+    let mut starts = vec![0usize];
+    for (i, &b) in t.iter().enumerate() {
+        if b == b'\n' && i + 1 < t.len() {
+            starts.push(i + 1);
+        }
+    }
+    let hdrs: Vec<usize> = starts.iter().cloned().filter(|&s| t[s] == b'>').collect();
+    let seqs: Vec<usize> = starts.iter().cloned().filter(|&s| t[s] != b'>').collect();
+    let line_end = |s: usize| -> usize { t[s..].iter().position(|&x| x == b'\n').map(|p| s + p).unwrap_or(t.len()) };
+    let mut cuts = vec![];
+    for _ in 0..n {
+        let c = match r.gen_range(0..10) {
+            0 => 0,
+            1 => t.len(),
+            2 => starts[r.gen_range(0..starts.len())],
+            3 if !hdrs.is_empty() => hdrs[r.gen_range(0..hdrs.len())] + 1,
+            4 if !hdrs.is_empty() => {
+                let s = hdrs[r.gen_range(0..hdrs.len())];
+                let e = line_end(s);
+                if e > s + 2 { r.gen_range(s + 2..e) } else { s + 1 }
+            }
+            5 if !hdrs.is_empty() => {
+                let e = line_end(hdrs[r.gen_range(0..hdrs.len())]);
+                if e > 0 && t[e - 1] == b'\r' { e - 1 } else { e }
+            }
+            6 if !seqs.is_empty() => line_end(seqs[r.gen_range(0..seqs.len())]), // before LF (between CR and LF when CRLF)
+            7 if !seqs.is_empty() => {
+                let e = line_end(seqs[r.gen_range(0..seqs.len())]);
+                if e > 0 && t[e - 1] == b'\r' { e - 1 } else { e }
+            }
+            8 if !cuts.is_empty() => cuts[r.gen_range(0..cuts.len())], // a duplicate: an empty member
+            _ => {
+                if !seqs.is_empty() {
+                    let s = seqs[r.gen_range(0..seqs.len())];
+                    let e = line_end(s);
+                    if e > s + 1 { r.gen_range(s + 1..e) } else { s }
+                } else {
+                    r.gen_range(0..=t.len())
+                }
+            }
+        };
+        cuts.push(c.min(t.len()));
+    }
+    cuts.sort();
+    cuts
+}
+
+fn cut_offsets(text: &[u8], o: &Opt, file_idx: usize) -> Vec<usize> {
+    match &o.cuts {
+        Cuts::Offsets(c) => c.iter().map(|&x| x.min(text.len())).collect(),
+        Cuts::Random { seed, n } => {
+            let mut r = util::rng(seed ^ ((file_idx as u64 + 1) * 0x9E37));
+            random_cuts(text, &mut r, *n)
+        }
+        Cuts::Bgzf { block } => {
+            let mut c = vec![];
+            let mut p = *block;
+            while p < text.len() {
+                c.push(p);
+                p += *block;
+            }
+            c.push(text.len()); // the empty end-of-file member
+            c
+        }
+    }
+}
+
+fn dec(i: usize) -> Vec<u8> {
+    i.to_string().into_bytes()
+}
+
+fn present(recs: &[Rec], o: &Opt) -> (Vec<PFile>, Vec<Vec<usize>>) {
+    let gs = if o.single { vec![recs.to_vec()] } else { groups(recs) };
+    let mut files = vec![];
+    let mut all_cuts = vec![];
+    for (i, g) in gs.iter().enumerate() {
+        let text = file_text(g, o, i);
+        let mut name: Vec<u8> = if o.fname_sample && !o.single {
+            g[0].sample.clone()
+        } else if o.fname_sample {
+            b"pansn".to_vec()
+        } else {
+            let mut n = b"f".to_vec();
+            n.extend(dec(i + 1));
+            n
+        };
+        name.extend_from_slice(&o.stemext);
+        if o.gz {
+            name.extend_from_slice(b".gz");
+        }
+        let (members, cuts) = if o.gz {
+            let cuts = cut_offsets(&text, o, i);
+            let mut b = vec![0usize];
+            b.extend(cuts.iter().cloned());
+            b.push(text.len());
+            ((0..b.len() - 1).map(|j| text[b[j]..b[j + 1]].to_vec()).collect(), cuts)
+        } else {
+            (vec![text], vec![])
+        };
+        files.push(PFile { name, gz: o.gz, members });
+        all_cuts.push(cuts);
+    }
+    (files, all_cuts)
+}
+
+/// Write the files of one presentation; gzip members are compressed independently and concatenated.
+fn write_files(dir: &Path, files: &[PFile], subdirs: bool, seed: u64) -> Result<Vec<PathBuf>> {
+    std::fs::create_dir_all(dir)?;
+    let mut paths = vec![];
+    for (i, f) in files.iter().enumerate() {
+        let d = if subdirs { dir.join(format!("sub.{}.fa", (i as u64 * 7 + seed) % 5)) } else { dir.to_path_buf() };
+        std::fs::create_dir_all(&d)?;
+        let name = String::from_utf8(f.name.clone()).map_err(|_| anyhow!("file name is not utf-8"))?;
+        let p = d.join(name);
+        let mut out = vec![];
+        if f.gz {
+            for (j, m) in f.members.iter().enumerate() {
+                let level = [6u32, 1, 9, 0][((seed as usize) + i + j) % 4];
+                let mut enc = GzEncoder::new(Vec::new(), Compression::new(level));
+                enc.write_all(m)?;
+                out.extend(enc.finish()?);
+            }
+        } else {
+            for m in &f.members {
+                out.extend_from_slice(m);
+            }
+        }
+        std::fs::write(&p, out).with_context(|| format!("write {}", p.display()))?;
+        paths.push(p);
+    }
+    Ok(paths)
+}
+
+// ------------------------------------------------------------------------------------------------
+// driving the real code
+// ------------------------------------------------------------------------------------------------
+/// What the real reader feeds to the compressor for one file, exactly as main.rs reads it.
+fn read_file_real(p: &Path) -> std::result::Result<Vec<Rec>, String> {
+    let r = util::catch(std::panic::AssertUnwindSafe(|| -> Result<Vec<Rec>> {
+        let mut it = MultiFileIterator::new(vec![p.to_path_buf()])?;
+        let mut out = vec![];
+        while let Some((sample, contig, seq)) = it.next_contig()? {
+            if seq.is_empty() {
+                continue;
+            }
+            out.push(Rec { sample: sample.into_bytes(), header: contig.into_bytes(), seq });
+        }
+        Ok(out)
+    }));
+    match r {
+        Ok(Ok(v)) => Ok(v),
+        Ok(Err(e)) => Err(format!("err: {:#}", e)),
+        Err(p) => Err(format!("panic: {}", p)),
+    }
+}
+
+struct Created {
+    result: &'static str,
+    msg: String,
+    sha: String,
+}
+
+fn create_lib(paths: &[PathBuf], out: &Path, k: usize, seg: usize, mm: usize, threads: usize) -> Created {
+    let o = CreateOpts {
+        files: paths.iter().map(|p| p.to_string_lossy().to_string()).collect(),
+        out: out.to_string_lossy().to_string(),
+        k,
+        segment_size: seg,
+        min_match: mm,
+        threads,
+        queue_capacity: 2usize << 30,
+        fallback_frac: 0.0,
+        pack_size: 50,
+    };
+    let _ = std::fs::remove_file(out);
+    let r = util::catch(std::panic::AssertUnwindSafe(|| create_like_cli(&o)));
+    finish_create(
+        match r {
+            Ok(Ok(())) => ("ok", String::new()),
+            Ok(Err(e)) => ("err", format!("{:#}", e)),
+            Err(p) => ("panic", p),
+        },
+        out,
+    )
+}
+
+fn finish_create(r: (&'static str, String), out: &Path) -> Created {
+    let sha = if r.0 == "ok" { std::fs::read(out).map(|b| util::sha256_hex(&b)).unwrap_or_default() } else { String::new() };
+    Created { result: r.0, msg: r.1.chars().take(300).collect(), sha }
+}
+
+static RUNS: AtomicUsize = AtomicUsize::new(0);
+
+fn run_bin(ragc: &str, args: &[String], wd: &Path) -> Result<(Option<i32>, Vec<u8>, String)> {
+    let n = RUNS.fetch_add(1, Ordering::SeqCst);
+    let so = wd.join(format!("stdout_{}_{}", std::process::id(), n));
+    let se = wd.join(format!("stderr_{}_{}", std::process::id(), n));
+    let mut child = std::process::Command::new(ragc)
+        .args(args)
+        .current_dir(wd)
+        .env("RUST_BACKTRACE", "0")
+        .stdin(std::process::Stdio::null())
+        .stdout(std::fs::File::create(&so)?)
+        .stderr(std::fs::File::create(&se)?)
+        .spawn()
+        .with_context(|| format!("cannot start {}", ragc))?;
+    let t0 = std::time::Instant::now();
+    let status = loop {
+        if let Some(st) = child.try_wait()? {
+            break st;
+        }
+        if t0.elapsed().as_secs() > 900 {
+            let _ = child.kill();
+            bail!("timeout (900 s) running ragc {:?}", args); // a tool error, never a verdict
+        }
+        std::thread::sleep(std::time::Duration::from_millis(if t0.elapsed().as_millis() < 200 { 2 } else { 20 }));
+    };
+    let stdout = std::fs::read(&so)?;
+    let stderr = String::from_utf8_lossy(&std::fs::read(&se)?).to_string();
+    let _ = std::fs::remove_file(&so);
+    let _ = std::fs::remove_file(&se);
+    let tail: String = stderr.chars().rev().take(300).collect::<String>().chars().rev().collect();
+    Ok((status.code(), stdout, tail))
+}
+
+fn create_cli(ragc: &str, paths: &[PathBuf], out: &Path, k: usize, seg: usize, mm: usize, threads: usize, wd: &Path) -> Result<Created> {
+    let _ = std::fs::remove_file(out);
+    let mut args: Vec<String> = vec!["create".into(), "-o".into(), out.to_string_lossy().to_string(), "-k".into(), k.to_string(), "-s".into(), seg.to_string(),
+        "-m".into(), mm.to_string(), "-t".into(), threads.to_string(), "-v".into(), "0".into()];
+    for p in paths {
+        args.push(p.to_string_lossy().to_string());
+    }
+    let (code, _so, se) = run_bin(ragc, &args, wd)?;
+    Ok(finish_create(if code == Some(0) { ("ok", String::new()) } else { ("err", format!("exit {:?}: {}", code, se)) }, out))
+}
+
+struct Extracted {
+    result: &'static str,
+    msg: String,
+    samples: Vec<Vec<u8>>,
+    contigs: Vec<Rec>, // sample, name as the reader reports it, codes
+}
+
+fn extract_lib(agc: &Path) -> Extracted {
+    let r = util::catch(std::panic::AssertUnwindSafe(|| -> Result<(Vec<Vec<u8>>, Vec<Rec>)> {
+        let mut d = Decompressor::open(&agc.to_string_lossy(), DecompressorConfig { verbosity: 0 })?;
+        let samples = d.list_samples();
+        let mut contigs = vec![];
+        for s in &samples {
+            for (n, q) in d.get_sample(s)? {
+                contigs.push(Rec { sample: s.clone().into_bytes(), header: n.into_bytes(), seq: q });
+            }
+        }
+        Ok((samples.into_iter().map(|s| s.into_bytes()).collect(), contigs))
+    }));
+    match r {
+        Ok(Ok((samples, contigs))) => Extracted { result: "ok", msg: String::new(), samples, contigs },
+        Ok(Err(e)) => Extracted { result: "err", msg: format!("{:#}", e), samples: vec![], contigs: vec![] },
+        Err(p) => Extracted { result: "panic", msg: p, samples: vec![], contigs: vec![] },
+    }
+}
+
+/// `ragc listset` + `ragc getset <sample>` per listed sample; FASTA text projected back to codes.
+fn extract_cli(ragc: &str, agc: &Path, wd: &Path) -> Result<Extracted> {
+    let a = agc.to_string_lossy().to_string();
+    let (code, so, se) = run_bin(ragc, &["listset".into(), a.clone()], wd)?;
+    if code != Some(0) {
+        return Ok(Extracted { result: "err", msg: format!("listset exit {:?}: {}", code, se), samples: vec![], contigs: vec![] });
+    }
+    let samples: Vec<Vec<u8>> = so.split(|&b| b == b'\n').filter(|l| !l.is_empty()).map(|l| l.to_vec()).collect();
+    let mut contigs = vec![];
+    for s in &samples {
+        let (code, so, se) = run_bin(ragc, &["getset".into(), a.clone(), String::from_utf8_lossy(s).to_string()], wd)?;
+        if code != Some(0) {
+            return Ok(Extracted { result: "err", msg: format!("getset exit {:?}: {}", code, se), samples, contigs });
+        }
+        for line in so.split(|&b| b == b'\n') {
+            if line.is_empty() {
+                continue;
+            }
+            if line[0] == b'>' {
+                contigs.push(Rec { sample: s.clone(), header: line[1..].to_vec(), seq: vec![] });
+            } else if let Some(c) = contigs.last_mut() {
+                for &ch in line {
+                    // projection of the output alphabet (upper-case symbol table); anything else is code 99
+                    c.seq.push(gen::CODE2CHAR.iter().position(|&x| x == ch).map(|p| p as u8).unwrap_or(99));
+                }
+            } else {
+                return Ok(Extracted { result: "err", msg: "getset output does not start with a header".into(), samples, contigs });
+            }
+        }
+    }
+    Ok(Extracted { result: "ok", msg: String::new(), samples, contigs })
+}
+
+fn dig(codes: &[u8]) -> String {
+    util::sha256_hex(codes)[..24].to_string()
+}
+
+// ------------------------------------------------------------------------------------------------
+// REPLAY: terminal states of MC_Presentation on the real code
+// ------------------------------------------------------------------------------------------------
+fn rec_json(r: &Rec) -> Value {
+    json!({"sample": String::from_utf8_lossy(&r.sample), "header": String::from_utf8_lossy(&r.header), "seq": r.seq})
+}
+
+fn replay(a: &Args) -> Result<()> {
+    util::install_panic_hook();
+    let input = a.get("in")?;
+    let dir = PathBuf::from(a.get("dir")?);
+    let create_mod = a.num("create-mod", 1usize).max(1);
+    let jobs = a.num("jobs", 6usize);
+    let (k, seg, mm) = (a.num("k", 3usize), a.num("seg", 4usize), a.num("mm", 3usize));
+    std::fs::create_dir_all(&dir)?;
+    let lines: Vec<String> = std::io::BufReader::new(std::fs::File::open(input)?).lines().collect::<std::io::Result<Vec<_>>>()?;
+    let lines: Vec<String> = lines.into_iter().filter(|l| !l.trim().is_empty()).collect();
+    let fails: Mutex<Vec<Value>> = Mutex::new(vec![]);
+    let tool: Mutex<Vec<String>> = Mutex::new(vec![]);
+    // (records, bytes key) -> (sha, behaviour index)
+    let shas: Mutex<BTreeMap<String, (String, usize)>> = Mutex::new(BTreeMap::new());
+    let steps = AtomicUsize::new(0);
+    let creates = AtomicUsize::new(0);
+    let agree = AtomicUsize::new(0);
+    let kinds_seen: Mutex<BTreeMap<String, usize>> = Mutex::new(BTreeMap::new());
+    let pool = rayon::ThreadPoolBuilder::new().num_threads(jobs).build()?;
+    pool.install(|| {
+        lines.par_iter().enumerate().for_each(|(bi, line)| {
+            let r = (|| -> Result<()> {
+                let v: Value = serde_json::from_str(line)?;
+                let recs = recs_of(&v["recs"]);
+                let o = opt_of(&v["opt"])?;
+                let model: Vec<PFile> = v["files"]
+                    .as_array()
+                    .ok_or_else(|| anyhow!("no files"))?
+                    .iter()
+                    .map(|f| PFile {
+                        name: bytes_of(&f["name"]),
+                        gz: f["gz"].as_bool().unwrap_or(false),
+                        members: f["members"].as_array().map(|m| m.iter().map(bytes_of).collect()).unwrap_or_default(),
+                    })
+                    .collect();
+                // (0) the harness' presenter agrees with the model's Present (tool self-check, not a verdict)
+                let (mine, cuts) = present(&recs, &o);
+                let same = mine.len() == model.len() && mine.iter().zip(model.iter()).all(|(x, y)| x.name == y.name && x.gz == y.gz && x.members == y.members);
+                if !same {
+                    tool.lock().unwrap().push(format!("behaviour {}: harness presenter differs from the model's Present", bi));
+                } else {
+                    agree.fetch_add(1, Ordering::SeqCst);
+                }
+                if o.gz && !mine.is_empty() {
+                    let t: Vec<u8> = mine[0].members.concat();
+                    let mk: Vec<String> = cuts[0].iter().map(|&c| cut_kind(&t, c).to_string()).collect();
+                    let model_k: Vec<String> = v["kinds"].as_array().map(|a| a.iter().map(|x| x.as_str().unwrap_or("").to_string()).collect()).unwrap_or_default();
+                    if mk != model_k {
+                        tool.lock().unwrap().push(format!("behaviour {}: cut kinds {:?} differ from the model's {:?}", bi, mk, model_k));
+                    }
+                    let mut ks = kinds_seen.lock().unwrap();
+                    for k in mk {
+                        *ks.entry(k).or_insert(0) += 1;
+                    }
+                }
+                // (1) the model's bytes through the real reader, file by file
+                let d = dir.join(format!("b{}", bi));
+                let paths = write_files(&d, &model, false, bi as u64)?;
+                let groups_model = if o.single { vec![recs.clone()] } else { groups(&recs) };
+                let mut fail = |kind: &str, detail: Value| {
+                    fails.lock().unwrap().push(json!({"kind": kind, "behaviour": bi, "opt": v["opt"], "family": v["family"], "files": v["files"],
+                        "recs": v["recs"], "detail": detail}));
+                };
+                for (fi, p) in paths.iter().enumerate() {
+                    steps.fetch_add(1, Ordering::SeqCst);
+                    match read_file_real(p) {
+                        Ok(got) => {
+                            if got != groups_model[fi] {
+                                fail("reader", json!({"file": fi, "got": got.iter().map(rec_json).collect::<Vec<_>>(),
+                                    "want": groups_model[fi].iter().map(rec_json).collect::<Vec<_>>()}));
+                            }
+                        }
+                        Err(m) => fail("reader", json!({"file": fi, "got": m})),
+                    }
+                }
+                // (2) real create + real extraction
+                if bi % create_mod == 0 {
+                    creates.fetch_add(1, Ordering::SeqCst);
+                    steps.fetch_add(1, Ordering::SeqCst);
+                    let agc = d.join("out.agc");
+                    let c = create_lib(&paths, &agc, k, seg, mm, 1);
+                    if c.result != "ok" {
+                        fail("create", json!({"result": c.result, "msg": c.msg}));
+                    } else {
+                        let e = extract_lib(&agc);
+                        let want_samples: Vec<Vec<u8>> = groups(&recs).iter().map(|g| g[0].sample.clone()).collect();
+                        if e.result != "ok" || e.samples != want_samples || e.contigs != recs {
+                            fail("extract", json!({"result": e.result, "msg": e.msg,
+                                "samples": e.samples.iter().map(|s| String::from_utf8_lossy(s).to_string()).collect::<Vec<_>>(),
+                                "contigs": e.contigs.iter().map(rec_json).collect::<Vec<_>>(),
+                                "want": recs.iter().map(rec_json).collect::<Vec<_>>()}));
+                        }
+                        let key = format!("{}|{}", v["recs"], v["key"]);
+                        let clash: Option<usize> = {
+                            let mut m = shas.lock().unwrap();
+                            match m.get(&key) {
+                                Some((s, first)) => if *s != c.sha { Some(*first) } else { None },
+                                None => {
+                                    m.insert(key, (c.sha.clone(), bi));
+                                    None
+                                }
+                            }
+                        };
+                        if let Some(first) = clash {
+                            fail("sha", json!({"sha": c.sha, "first_behaviour": first}));
+                        }
+                    }
+                }
+                let _ = std::fs::remove_dir_all(&d);
+                Ok(())
+            })();
+            if let Err(e) = r {
+                tool.lock().unwrap().push(format!("behaviour {}: {:#}", bi, e));
+            }
+        });
+    });
+    let mut fails = fails.into_inner().unwrap();
+    fails.sort_by_key(|f| f["behaviour"].as_u64().unwrap_or(0));
+    let nfail = fails.len();
+    fails.truncate(40);
+    println!(
+        "{}",
+        json!({"behaviours": lines.len(), "steps": steps.load(Ordering::SeqCst), "creates": creates.load(Ordering::SeqCst),
+            "sha_classes": shas.lock().unwrap().len(), "presenter_agree": agree.load(Ordering::SeqCst),
+            "cut_kinds": *kinds_seen.lock().unwrap(), "nfail": nfail, "fails": fails, "tool_errors": *tool.lock().unwrap()})
+    );
+    Ok(())
+}
+
+// ------------------------------------------------------------------------------------------------
+// TRACE: generated sample sets, many presentations, real create / list / extract, events
+// ------------------------------------------------------------------------------------------------
+const BOUNDARY_WIDTHS: [usize; 24] = [1, 2, 3, 59, 60, 61, 70, 79, 80, 81, 127, 128, 255, 256, 1023, 1024, 4095, 4096, 8191, 8192, 65535, 65536, 99999, 100000];
+
+fn random_opt(r: &mut StdRng, pansn: bool, layout_single: bool, longest: usize, wide: bool) -> Opt {
+    let width = match if wide { r.gen_range(2..12) } else { r.gen_range(0..10) } {
+        0 | 1 => 1 + r.gen_range(0..3usize),
+        2 | 3 | 4 => {
+            // line length incl. the line end at a power-of-two / round number, and the numbers around it
+            let w = BOUNDARY_WIDTHS[r.gen_range(0..BOUNDARY_WIDTHS.len())];
+            (w + 2 - r.gen_range(0..5usize)).clamp(1, 100000)
+        }
+        5 => longest.clamp(1, 100000),                    // exactly the longest contig: no wrapping at all
+        6 => (longest / 2).clamp(1, 100000),
+        10 | 11 => {
+            let e = r.gen_range(3.6..5.0f64);            // wide lines: log-uniform over 4000..100000
+            (10f64.powf(e) as usize).clamp(1, 100000)
+        }
+        _ => {
+            let e = r.gen_range(0.0..5.0f64);            // log-uniform over 1..100000
+            (10f64.powf(e) as usize).clamp(1, 100000)
+        }
+    };
+    let gz = r.gen_bool(0.7);
+    let cuts = if !gz {
+        Cuts::Offsets(vec![])
+    } else {
+        match r.gen_range(0..8) {
+            0 => Cuts::Offsets(vec![]),
+            1 => Cuts::Bgzf { block: [65280usize, 4096, 700][r.gen_range(0..3)] },
+            2 => Cuts::Random { seed: r.gen(), n: 1 },
+            3 => Cuts::Random { seed: r.gen(), n: 2 },
+            4 | 5 => Cuts::Random { seed: r.gen(), n: r.gen_range(3..12) },
+            _ => Cuts::Random { seed: r.gen(), n: r.gen_range(12..80) },
+        }
+    };
+    Opt {
+        single: layout_single,
+        fname_sample: if pansn { r.gen_bool(0.7) } else { true },
+        stemext: if r.gen_bool(0.7) { b".fa".to_vec() } else { b".fasta".to_vec() },
+        width,
+        crlf: r.gen_bool(0.5),
+        case: match r.gen_range(0..4) { 0 => CaseMode::Upper, 1 => CaseMode::Lower, _ => CaseMode::MixedRandom(r.gen()) },
+        finalnl: r.gen_bool(0.75),
+        gz,
+        cuts,
+        subdirs: r.gen_bool(0.3),
+    }
+}
+
+fn base_opt(single: bool) -> Opt {
+    Opt { single, fname_sample: true, stemext: b".fa".to_vec(), width: 60, crlf: false, case: CaseMode::Upper, finalnl: true, gz: false,
+          cuts: Cuts::Offsets(vec![]), subdirs: false }
+}
+
+fn extract_event(via: &str, e: &Extracted) -> Value {
+    json!({"ev": "extract", "via": via, "result": e.result, "msg": e.msg,
+        "samples": e.samples.iter().map(|s| jb(s)).collect::<Vec<_>>(),
+        "contigs": e.contigs.iter().map(|c| json!({"sample": jb(&c.sample), "name": jb(&c.header), "len": c.seq.len(), "dig": dig(&c.seq)})).collect::<Vec<_>>()})
+}
+
+fn trace(a: &Args) -> Result<()> {
+    util::install_panic_hook();
+    let dir = PathBuf::from(a.get("dir")?);
+    let id = a.get("id")?.to_string();
+    let seed = a.num("seed", 1u64);
+    let pansn = a.flag("pansn");
+    let nrand = a.num("nrandom", 8usize);
+    let threads = a.num("threads", 1usize);
+    let (k, seg, mm) = (a.num("k", 11usize), a.num("seg", 100usize), a.num("mm", 15usize));
+    let cli_every = a.num("cli-every", 0usize);
+    let ragc = a.opt("ragc").map(|s| s.to_string());
+    let jobs = a.num("jobs", 1usize);
+    let go = gen::GenOpts {
+        seed,
+        kind: a.opt("kind").unwrap_or("basic").to_string(),
+        n_samples: a.num("samples", 3usize),
+        n_chrom: a.num("chroms", 2usize),
+        chrom_len: a.num("len", 1500usize),
+        pansn,
+    };
+    let samples = gen::generate(&go);
+    // abstract records; sample names of non-PanSN sets get a dotted, versioned form now and then (file stem rule)
+    let dotted = !pansn && seed % 2 == 0;
+    let mut recs: Vec<Rec> = vec![];
+    for s in &samples {
+        let sname = if dotted { format!("GCA_{}.{}", &s.name, 1 + seed % 3) } else { s.name.clone() };
+        for (ci, c) in s.contigs.iter().enumerate() {
+            if c.seq.is_empty() {
+                continue;
+            }
+            // PanSN headers now and then carry a description after the third field
+            let header = if pansn && (seed + ci as u64) % 3 == 0 { format!("{} len={} note", c.name, c.seq.len()) } else { c.name.clone() };
+            recs.push(Rec { sample: sname.clone().into_bytes(), header: header.into_bytes(), seq: c.seq.clone() });
+        }
+    }
+    let longest = recs.iter().map(|r| r.seq.len()).max().unwrap_or(1);
+    // presentations
+    let mut plist: Vec<(String, Opt)> = vec![("base".into(), base_opt(false))];
+    if pansn {
+        plist.push(("base".into(), base_opt(true)));
+    }
+    if let Some(p) = a.opt("opts") {
+        for line in std::io::BufReader::new(std::fs::File::open(p)?).lines() {
+            let line = line?;
+            if line.trim().is_empty() {
+                continue;
+            }
+            let v: Value = serde_json::from_str(&line)?;
+            let mut o = opt_of(&v)?;
+            if !pansn && (o.single || !o.fname_sample) {
+                continue;
+            }
+            if o.width == 0 {
+                // the model's "one line": widths of the property are 1..100000
+                o.width = longest.clamp(1, 100000);
+            }
+            plist.push(("tlc".into(), o));
+        }
+    }
+    let mut r = util::rng(seed ^ 0xC19);
+    for i in 0..nrand {
+        let single = pansn && i % 2 == 1;
+        plist.push(("random".into(), random_opt(&mut r, pansn, single, longest, a.flag("wide"))));
+    }
+    if a.flag("sweep") {
+        // line lengths around every power of two 2^6..2^16, without and with the line end:
+        // LF with widths 2^n-2 .. 2^n+1 (line + LF = 2^n-1 .. 2^n+2), CR LF with widths 2^n-3 .. 2^n-1 (line + CR LF = 2^n-1 .. 2^n+1)
+        let mut i = 0u64;
+        for n in 6..=16u32 {
+            for (crlf, lo, hi) in [(false, 2isize, -1isize), (true, 3, 1)] {
+                let mut d = lo;
+                while d >= hi {
+                    let w = ((1isize << n) - d) as usize;
+                    d -= 1;
+                    if w > longest {
+                        continue;
+                    }
+                    let mut o = base_opt(pansn && i % 4 == 3);
+                    o.width = w;
+                    o.crlf = crlf;
+                    o.gz = i % 3 == 1;
+                    o.cuts = if i % 6 == 1 { Cuts::Bgzf { block: 65280 } } else { Cuts::Offsets(vec![]) };
+                    o.case = if i % 5 == 2 { CaseMode::Lower } else { CaseMode::Upper };
+                    plist.push(("sweep".into(), o));
+                    i += 1;
+                }
+            }
+        }
+    }
+    let out_path = a.get("out")?.to_string();
+    let mut out = std::io::BufWriter::new(std::fs::File::create(&out_path)?);
+    writeln!(out, "{}", json!({"ev": "input", "id": id, "threads": threads, "k": k, "seg": seg, "mm": mm, "pansn": pansn, "ncontigs": recs.len(),
+        "records": recs.iter().map(|r| json!({"sample": jb(&r.sample), "header": jb(&r.header), "len": r.seq.len(), "dig": dig(&r.seq)})).collect::<Vec<_>>()}))?;
+    let pool = rayon::ThreadPoolBuilder::new().num_threads(jobs).build()?;
+    let results: Vec<Result<Vec<Value>>> = pool.install(|| {
+        plist
+            .par_iter()
+            .enumerate()
+            .map(|(pi, (src, o))| -> Result<Vec<Value>> {
+                let mut evs = vec![];
+                let (files, cuts) = present(&recs, o);
+                let d = dir.join(format!("p{}", pi));
+                let paths = write_files(&d, &files, o.subdirs, seed + pi as u64)?;
+                let mut kinds: BTreeMap<&'static str, usize> = BTreeMap::new();
+                let mut empty_members = 0usize;
+                let mut max_line = 0usize;
+                for (fi, f) in files.iter().enumerate() {
+                    let t: Vec<u8> = f.members.concat();
+                    if fi < 40 || fi + 1 == files.len() {
+                        for &c in &cuts[fi] {
+                            *kinds.entry(cut_kind(&t, c)).or_insert(0) += 1;
+                        }
+                    }
+                    if f.gz {
+                        empty_members += f.members.iter().filter(|m| m.is_empty()).count();
+                    }
+                    max_line = max_line.max(t.split(|&b| b == b'\n').map(|l| l.len()).max().unwrap_or(0));
+                }
+                let mut pe = json!({"ev": "present", "pid": pi, "src": src, "opt": opt_json(o),
+                    "files": files.iter().map(|f| json!({"name": jb(&f.name), "members": f.members.len(),
+                        "bytes": f.members.iter().map(|m| m.len()).sum::<usize>()})).collect::<Vec<_>>(),
+                    "subdirs": o.subdirs, "cutkinds": kinds, "empty_members": empty_members, "max_line": max_line,
+                    "bgzf": matches!(o.cuts, Cuts::Bgzf { .. })});
+                pe["max_members"] = json!(files.iter().map(|f| f.members.len()).max().unwrap_or(0));
+                evs.push(pe);
+                let agc = d.join("lib.agc");
+                let c = create_lib(&paths, &agc, k, seg, mm, threads);
+                evs.push(json!({"ev": "create", "via": "lib", "result": c.result, "msg": c.msg, "sha256": c.sha}));
+                if c.result == "ok" {
+                    evs.push(extract_event("lib", &extract_lib(&agc)));
+                }
+                let with_cli = ragc.is_some() && cli_every > 0 && (src == "base" || pi % cli_every == 0);
+                if with_cli {
+                    let rg = ragc.as_ref().unwrap();
+                    let agc2 = d.join("cli.agc");
+                    let c = create_cli(rg, &paths, &agc2, k, seg, mm, threads, &d)?;
+                    evs.push(json!({"ev": "create", "via": "cli", "result": c.result, "msg": c.msg, "sha256": c.sha}));
+                    if c.result == "ok" {
+                        evs.push(extract_event("cli", &extract_cli(rg, &agc2, &d)?));
+                    }
+                }
+                if !a.flag("keep") {
+                    let _ = std::fs::remove_dir_all(&d);
+                }
+                Ok(evs)
+            })
+            .collect()
+    });
+    let mut n = 0;
+    for r in results {
+        for e in r? {
+            writeln!(out, "{}", e)?;
+            n += 1;
+        }
+    }
+    out.flush()?;
+    println!("{}", json!({"id": id, "events": n, "presentations": plist.len(), "records": recs.len(), "longest": longest,
+        "bases": recs.iter().map(|r| r.seq.len()).sum::<usize>()}));
+    Ok(())
 }
